@@ -120,6 +120,15 @@ def poly_meshes(ctx):
                 o['node_ids'] = rng.choice(['seq', 'sparse'])
                 o['shuffle_nodes'] = rep % 4 == 0
             out.append(G.solid_mesh(rng, ks, o))
+    # dense, almost sorted node / element id patterns
+    for pat in G.PATTERN_MODES:
+        for ks in (['pyr', 'tet'], ['hex', 'prism']):
+            o = G.random_opts(rng)
+            o['node_ids'] = pat
+            o['extra_nodes'] = 0
+            o['elem_ids'] = rng.choice(['seq', pat])
+            o['shuffle_elems'] = False
+            out.append(G.solid_mesh(rng, [rng.choice(ks)], o))
     # node ids beyond int32
     for ks in (['tet'], ['hex']):
         o = G.random_opts(rng)
